@@ -105,7 +105,50 @@ func streamAlias(c *Ctx) {
 	for i := 0; i < nc; i++ {
 		c.stats.Cases++
 		gap := c.rng.Pick([]int{0, 0, 1, 7, 600})
-		switch c.rng.Intn(3) {
+		switch c.rng.Intn(4) {
+		case 3: // a compact sequence followed by tail padding, contiguous: out-of-context parsing of single shares
+			w := share.NewCompactShareSplitter(share.TxNamespace, 0)
+			desc := ""
+			T := 0
+			for k := c.rng.Range(1, 4); k > 0; k-- {
+				n := c.compactLen()
+				w.WriteTx(c.rng.Bytes(n))
+				T += n + uvarintLen(n)
+				desc += fmt.Sprint(n, ",")
+			}
+			// a last tx ending 1..9 bytes before the end of its share (short remainder after the last unit)
+			end := 474
+			for end < T+12 {
+				end += 478
+			}
+			r := end - c.rng.Range(1, 9) - T
+			L := r - 1
+			for L > 0 && L+uvarintLen(L) > r {
+				L--
+			}
+			if L > 0 {
+				w.WriteTx(c.rng.Bytes(L))
+				desc += fmt.Sprint(L, "(short-remainder)")
+			}
+			sh, _ := w.Export()
+			list := append(sharesToBytes(sh), sharesToBytes(share.TailPaddingShares(1))...)
+			flat, views := flatten(list, 0)
+			shares, _ := share.FromBytes(views)
+			n := len(shares)
+			c.nontrivial("compact " + desc)
+			var calls []roCall
+			for i := 0; i < n-1; i++ {
+				i := i
+				calls = append(calls, roCall{fmt.Sprintf("ParseTxs(shares[%d:%d])", i, i+1), func() string { o, _, _ := safeParseTxs(shares[i : i+1]); return o }})
+			}
+			calls = append(calls, roCall{"ParseTxs(all tx shares)", func() string { o, _, _ := safeParseTxs(shares[:n-1]); return o }},
+				roCall{"ParseShares", func() string { o, _ := safeParseShares(shares, false); return o }},
+				roCall{"Sequence.RawData", func() string {
+					o, _ := safeSeqRaw(share.Sequence{Namespace: shares[0].Namespace(), Shares: shares[:n-1]})
+					return o
+				}})
+			c.aliasCheck("compact shares "+desc, flat, calls)
+			c.dist("compact-shares")
 		case 0: // blob sequence shares
 			k := c.rng.Range(1, 3)
 			var list [][]byte
